@@ -368,7 +368,7 @@ def base_chains(draw, max_res=40, min_res=2, allow_ball=True, max_atoms=1400, pr
 @st.composite
 def structures(draw, max_res=40, min_res=2, allow_ball=True, allow_hetero=True, allow_relabel=True,
                allow_mutation=True, multi_chain=None, max_atoms=1400, distinct_chain_ids=False,
-               allow_icode=True, protein=None, always_ter=False):
+               allow_icode=True, protein=None, always_ter=False, allow_clash=True, allow_truncation=True):
     chains, labels, pname = draw(base_chains(max_res=max_res, min_res=min_res, allow_ball=allow_ball,
                                              max_atoms=max_atoms, protein=protein))
     if multi_chain is True and len(chains) < 2:
@@ -385,19 +385,60 @@ def structures(draw, max_res=40, min_res=2, allow_ball=True, allow_hetero=True, 
         nmut = min(nmut, nres)
         flat = [(ci, ri) for ci, c in enumerate(chains) for ri in range(len(c))]
         done = 0
+        clashes = 0
+        grid = Grid([a for c in chains for r in c for a in r]) if nmut else None
         for _ in range(nmut):
             ci, ri = flat[draw(st.integers(0, len(flat) - 1))]
             t = draw(st.sampled_from(NEW_TYPES))
             rot = draw(st.integers(0, 40))
+            may_clash = allow_clash and draw(st.integers(0, 6)) == 0
             res = chains[ci][ri]
             if res[0].rec != "ATOM" or res[0].resn not in HEAVY_COUNT:
                 continue
-            new = mutate_residue(res, t, rot)
+            new = None
+            own = set(id(a) for a in res)
+            for attempt in range(4):
+                cand = mutate_residue(res, t, rot + attempt)
+                if cand is None:
+                    break
+                side = [a for a in cand if a.aname not in pdbio.BACKBONE and a.aname not in pdbio.TERMINAL_O]
+                # new side-chain atoms must stay beyond bonding distance of every atom of other residues
+                bad = any(id(b) not in own for a in side for b in grid.near(a, 2150))
+                if not bad or may_clash:
+                    new = cand
+                    clashes += bad
+                    break
             if new is not None:
                 chains[ci][ri] = new
+                grid = Grid([a for c in chains for r in c for a in r])
                 done += 1
+        if clashes:
+            labels.append("clash")
         if done:
             labels.append("mutated")
+    # ---- truncations: incomplete residues (missing side-chain ends, single atoms, backbone atoms) ----
+    if allow_truncation and nres and draw(st.integers(0, 3)) == 0:
+        ntr = draw(st.integers(1, 4))
+        for _ in range(ntr):
+            ci = draw(st.integers(0, len(chains) - 1))
+            ri = draw(st.integers(0, len(chains[ci]) - 1))
+            res = chains[ci][ri]
+            how = draw(st.sampled_from(["atom", "atom", "tail", "tail", "backbone"]))
+            if how == "atom" and len(res) > 1:
+                del res[draw(st.integers(0, len(res) - 1))]
+            elif how == "tail":
+                side = [i for i, a in enumerate(res) if a.aname not in pdbio.BACKBONE + ("CB",)
+                        and a.aname not in pdbio.TERMINAL_O]
+                if side:
+                    cut = side[draw(st.integers(0, len(side) - 1))]
+                    keep = [a for i, a in enumerate(res) if i < cut or a.aname in pdbio.TERMINAL_O]
+                    if keep:
+                        res[:] = keep
+            elif how == "backbone":
+                bb = [i for i, a in enumerate(res) if a.aname in ("O", "C", "N")]
+                if bb and len(res) > 1:
+                    del res[bb[draw(st.integers(0, len(bb) - 1))]]
+        labels.append("truncated")
     # ---- relabelling: chain ids, numbering, insertion codes ----
     ids = []
     for ci, c in enumerate(chains):
